@@ -237,7 +237,8 @@ impl SystemState {
                         .map(|p| p.id)
                         .max()
                         .unwrap_or_else(|| panic!("No partition found"));
-                    for i in 0..command.partitions_count {
+                    // The runtime deletes at most as many partitions as exist, so must the replay.
+                    for i in 0..command.partitions_count.min(last_partition_id) {
                         topic.partitions.remove(&(last_partition_id - i));
                     }
                 }
